@@ -285,11 +285,16 @@ impl WorldA {
                 }
             }
         }
+        // relative index -> index of the group whose randomness SOURCE it shares (only when the
+        // thresholds differ: with one source and one threshold the two sharings would legitimately
+        // be the same polynomial)
+        let mut share_src_with: BTreeMap<usize, usize> = BTreeMap::new();
         if gen.relatives && !triples.is_empty() {
             // relatives of existing groups: same measurement under another epoch / threshold
             let n = 1 + ctx.ch.index(2);
             for _ in 0..n {
-                let (m, e, t) = ctx.ch.pick(&triples).clone();
+                let oi = ctx.ch.index(triples.len());
+                let (m, e, t) = triples[oi].clone();
                 let rel = match ctx.ch.draw(4) {
                     0 => (m, epoch_bytes(ctx, gen.utf8_epochs), t),
                     1 => (m, e, t + 1),
@@ -297,15 +302,24 @@ impl WorldA {
                     _ => (m, epoch_bytes(ctx, gen.utf8_epochs), (*ctx.ch.pick(&gen.thresholds)).max(gen.min_threshold)),
                 };
                 if !triples.contains(&rel) {
+                    if rel.2 != t && ctx.ch.chance(2, 3) {
+                        share_src_with.insert(triples.len(), oi);
+                    }
                     triples.push(rel);
                 }
             }
         }
+        let mut srcs: Vec<RandSrc> = Vec::new();
         let mut total = 0usize;
         let mut finals: Vec<(Vec<u8>, Vec<u8>, u32)> = Vec::new();
-        for (m, e, t) in triples.into_iter() {
+        for (ti, (m, e, t)) in triples.into_iter().enumerate() {
             let gi = self.groups.len();
-            let src = match *ctx.ch.pick(&gen.sources) {
+            let inherited = share_src_with.get(&ti).and_then(|o| srcs.get(*o).cloned());
+            let src = if let Some(s) = inherited {
+                ctx.stats.probe("groups_sharing_client_randomness_across_thresholds");
+                s
+            } else {
+                match *ctx.ch.pick(&gen.sources) {
                 0 => RandSrc::Local,
                 1 => {
                     let b = ctx.ch.bytes(32);
@@ -317,7 +331,9 @@ impl WorldA {
                     RandSrc::Arbitrary(a)
                 }
                 _ => RandSrc::Oprf { md: ctx.ch.draw(4) as u8 },
+                }
             };
+            srcs.push(src.clone());
             let e = match &src {
                 RandSrc::Oprf { md } => vec![*md],
                 _ => e,
